@@ -348,7 +348,9 @@ GV_INST_EST(1 <= k && k <= self->dim_, SHIFTP(self, self->xenv_[k], gv_cb6) && S
 #include "ghost_begin.h"
 __CPROVER_assert(z != NULL, "S3: z = element(k,step) is non-null whenever u = chol.element(i,k) is");
 GV_ANCHOR(u, chol->env_ + (gv_ce6 - chol->env_) - (k - i));
-GV_ANCHOR(z, k == step ? self->diag_ + (step - 1) : k < step ? gv_env + gv_re - (step - k) : gv_env + (gv_ce6 - chol->env_) - (k - step));
+/* one anchor per base object, each of the form base + integer (a conditional POINTER makes CBMC read through byte offsets) */
+if (k == step) { GV_ANCHOR(z, self->diag_ + (step - 1)); }
+else { const long gv_zi = k < step ? gv_re - (step - k) : (gv_ce6 - chol->env_) - (k - step); GV_ANCHOR(z, gv_env + gv_zi); }
 #include "ghost_end.h"
 //@ end
 
